@@ -126,7 +126,15 @@ def gen_plan(prop, tier, rng, i):
             if kind == "md":
                 key = key // 1000 * 1000
             q = _path(g2[0], g2[1], max(key, SUB0 * 1000))
-            if q not in live and q != p:
+            if rng.random() < 0.35:
+                # renamed to a name outside the format (set aside, back to a tmp. name, out of its subdirectory):
+                # for the ringbuffer that is the deletion of the tracked file
+                d_, b_ = os.path.split(p)
+                q = rng.choice([p + ".bak", d_ + "/tmp." + b_, os.path.dirname(d_) + "/" + b_, "aside/" + b_])
+                live.remove(p)
+                steps.append({"s": "fs_move", "p": p, "q": q})
+                emit({"k": "moved", "p": p, "q": q})
+            elif q not in live and q != p:
                 live.remove(p)
                 live.append(q)
                 steps.append({"s": "fs_move", "p": p, "q": q})
